@@ -372,6 +372,12 @@ class Fn:
                 return "(Z.of_nat (length %s))" % a, "Z"
             if ta == "metrics":
                 return "(Z.of_nat %s)" % a, "Z"
+        if isinstance(f, ast.Attribute) and f.attr == "get" and len(e.args) == 2 and dotted(f.value) in self.env \
+                and self.env[dotted(f.value)][1] == "config":
+            k, tk = self.expr(e.args[0])
+            d, td = self.expr(e.args[1])
+            if tk == "str" and td == "Z":
+                return "(cfg_get %s %s %s)" % (self.env[dotted(f.value)][0], k, d), "argv"
         if isinstance(f, ast.Attribute) and f.attr == "get" and len(e.args) == 2 and self.expr(f.value)[1] == "args":
             a, _ta = self.expr(f.value)
             k, tk = self.expr(e.args[0])
@@ -500,6 +506,19 @@ class Fn:
             n = self.new(self.spec["state_names"][sp])
             self.state[sp] = (n, self.state[sp][1])
             return "(match %s with [] => %s | _ :: %s => %s end)" % (cur, empty, n, self.block(rest))
+        if isinstance(st, ast.Try) and not st.orelse and not st.finalbody and len(st.body) == 1 and isinstance(st.body[0], ast.Return) \
+                and isinstance(st.body[0].value, ast.Call) and dotted(st.body[0].value.func) == "int" and len(st.body[0].value.args) == 1 \
+                and not st.body[0].value.keywords and len(st.handlers) == 1 and dotted(st.handlers[0].type) == "ValueError" \
+                and st.handlers[0].name is None and len(st.handlers[0].body) == 1 and isinstance(st.handlers[0].body[0], ast.Return):
+            # try: return int(E) / except ValueError: return D      (nothing else in E can raise ValueError: E is a declared lookup)
+            a, ta = self.expr(st.body[0].value.args[0])
+            if ta != "argv":
+                raise Unsupported("int() of a %s" % ta)
+            d, td = self.expr(st.handlers[0].body[0].value)
+            if td != "Z":
+                raise Unsupported("default of type %s" % td)
+            self.notes.append("int(v): a number as it is, decimal text parsed (Limiter.parse_int), other text raises ValueError")
+            return self.result(("(match py_int %s with Some z_ => z_ | None => %s end)" % (a, d), "Z"))
         if isinstance(st, ast.Return):
             if st.value is None:
                 return self.result(None)
@@ -778,6 +797,15 @@ SPECS = [
          params="(cnt lastf ts : Z)", ret="Z * Z", args=["self", "ts"], env={"ts": ("ts", "Z")}, falls_off=True,
          state={"self._fire_count": ("cnt", "Z"), "self._last_fire": ("lastf", "Z")},
          state_names={"self._fire_count": "cnt", "self._last_fire": "lastf"}),
+    dict(group="Limits", name="gen_get_int", path="api/tracepoint/trigger.py", cls="LocationAction", func="__get_int",
+         params="(config : list (str * argv)) (name : str) (default_value : Z)", ret="Z", args=["self", "name", "default_value"],
+         env={"name": ("name", "str"), "default_value": ("default_value", "Z"), "self.__config": ("config", "config")}),
+    dict(group="Limits", name="gen_fire_count", path="api/tracepoint/trigger.py", cls="LocationAction", func="fire_count",
+         params="(config : list (str * argv))", ret="Z", args=["self"], constants=["api/tracepoint/constants.py"],
+         calls={"self.__get_int": ("gen_get_int config", ["str", "Z"], "Z")}),
+    dict(group="Limits", name="gen_fire_period", path="api/tracepoint/trigger.py", cls="LocationAction", func="fire_period",
+         params="(config : list (str * argv))", ret="Z", args=["self"], constants=["api/tracepoint/constants.py"],
+         calls={"self.__get_int": ("gen_get_int config", ["str", "Z"], "Z")}),
     dict(group="Limits", name="gen_fire_period_ns", path="api/tracepoint/trigger.py", cls="LocationAction", func="__fire_period_ns",
          params="(fp : Z)", ret="Z", args=["self"], env={"self.fire_period": ("fp", "Z")}),
     dict(group="Limits", name="gen_can_trigger", path="api/tracepoint/trigger.py", cls="LocationAction", func="can_trigger",
@@ -957,7 +985,7 @@ SPECS = [
 ]
 
 GROUPS = {           # generated file -> (imports, which properties' theorems are stated over it)
-    "Limits": ("From Deep Require Import Base PureSupport.", ["C04"]),
+    "Limits": ("From Deep Require Import Base Limiter PureSupport.", ["C04"]),
     "Match": ("From Deep Require Import Base PureSupport.", ["C03"]),
     "Collect": ("From Deep Require Import Base PureSupport.", ["C05"]),
     "Render": ("From Deep Require Import Base PureSupport.", ["C02"]),
